@@ -28,7 +28,11 @@ func checkC20(p *Program, r *Result) {
 		fname := funcName(fn)
 		bad := ""
 		uses := 0
-		for _, in := range instrsOf(fn) {
+		var regionInstrs []ssa.Instruction
+		for _, rf := range regionOf(p, fn, 3) {
+			regionInstrs = append(regionInstrs, instrsOf(rf)...)
+		}
+		for _, in := range regionInstrs {
 			u, ok := in.(*ssa.UnOp)
 			if !ok || u.Op != token.MUL {
 				continue
@@ -61,7 +65,11 @@ func checkC20(p *Program, r *Result) {
 	if fn := p.lookupFunc(pkgMcap, "Writer.WriteAttachment"); fn != nil {
 		fname := funcName(fn)
 		n := 0
-		for _, in := range instrsOf(fn) {
+		var regionInstrs []ssa.Instruction
+		for _, rf := range regionOf(p, fn, 3) {
+			regionInstrs = append(regionInstrs, instrsOf(rf)...)
+		}
+		for _, in := range regionInstrs {
 			var sizeArg ssa.Value
 			what := ""
 			switch x := in.(type) {
